@@ -238,7 +238,7 @@ def build(op, seed, variant=0):
     if op == "cross_act":
         nn = [3] * (2 + v % 2)
         Xs = [mk_tt(rng, nn, 2), mk_tt(rng, nn, 2)]
-        return C(op, teneva.cross_act, [lambda X: X[:, 0] + 2 * X[:, 1], Xs, mk_tt(rng, nn, 1)], dict(e=1e-6, nswp=2, dr=1, seed=int(seed % 1000)), seed_kw="seed")
+        return C(op, teneva.cross_act, [lambda X: X[:, 0] + 2 * X[:, 1], Xs, mk_tt(rng, nn, 1)], dict(e=1e-6, nswp=2, dr=1, dr2=[0, 1, 2][v % 3], seed=int(seed % 1000)), seed_kw="seed")
     if op == "accuracy_on_data":
         return C(op, teneva.accuracy_on_data, [Y, [I, I.tolist()][v % 2], rng.normal(size=len(I))], dict(e_trunc=[None, 1e-6][v % 2]))
     if op == "func_basis":
@@ -360,6 +360,12 @@ def build(op, seed, variant=0):
         return C(op, run, [[x, x.tolist()][v % 2]])
     if op in ("matrix_skeleton", "matrix_svd"):
         A = rng.normal(size=(int(rng.integers(1, 7)), int(rng.integers(1, 7))))
+        if v % 6 == 4:
+            # exactly-zero matrix (wide or square first, tall for the next variant round): zero singular values survive the rank cut
+            a_, b_ = sorted(A.shape)
+            A = np.zeros((a_, b_) if (v // 6) % 2 == 0 else (b_, a_))
+        elif v % 6 == 5:
+            A = np.outer(A[:, 0], np.ones(A.shape[1]))  # rank one with exactly repeated columns
         if op == "matrix_svd":
             return C(op, teneva.matrix_svd, [A], dict(e=[1e-10, 0.5][v % 2], r=[1e12, 2][(v // 2) % 2]))
         if v % 5 == 4:
